@@ -43,7 +43,7 @@ RULE = ("seeded object graphs (inversion -> mappers -> grids -> mask, fit -> dat
         "pair or one entry-point sweep; distinct by hash of (graph seed, history) ; non-trivial = history with >= 2 distinct "
         "quantities read (or a derivation applied after reads)")
 BOUNDS = {"quick": "6 graphs x (baseline of every public quantity + 12 histories of 20 steps) + 9 structure classes x 8 derivations x 2 + 6 sweeps + 12 determinism cases",
-          "thorough": "60 graphs x 60 histories of 60 steps + derivations x 10 seeds + 60 sweeps + 120 determinism cases"}
+          "thorough": "160 graphs x 60 histories of 60 steps + derivations x 32 seeds + 320 sweeps + 640 determinism cases"}
 EXHAUSTIVE = {"quick": False, "thorough": False}
 ASSUMPTIONS = ["quantities whose value is a non-array object are compared by type only",
                "histories of bounded length over the quantities reachable by introspection; a leak needing a longer sequence is missed",
@@ -57,13 +57,13 @@ SKIP_QUANT = {"reconstruction_noise_map_with_covariance", "reconstruction_noise_
 
 
 def plan(tier, seed):
-    ng = 6 if tier == "quick" else 60
+    ng = 6 if tier == "quick" else 160
     units = [{"kind": "hist", "g": g, "w": 6} for g in range(ng)]
-    nd = 2 if tier == "quick" else 10
+    nd = 2 if tier == "quick" else 32
     units += [{"kind": "derive", "s": s, "w": 3} for s in range(nd)]
-    ns = 6 if tier == "quick" else 60
+    ns = 6 if tier == "quick" else 320
     units += [{"kind": "sweep", "start": s, "stop": s + 2, "w": 2} for s in range(0, ns, 2)]
-    nq = 12 if tier == "quick" else 120
+    nq = 12 if tier == "quick" else 640
     units += [{"kind": "determ", "start": s, "stop": s + 4, "w": 2} for s in range(0, nq, 4)]
     return units
 
